@@ -26,6 +26,7 @@ type vthread struct {
 	cur            *Frame
 	depth          int
 	pendingDeferOf *Frame
+	pend           *pendingChanOp
 }
 
 type threadKilled struct{}
@@ -528,27 +529,258 @@ func init() {
 	}
 }
 
-// ---------- channels (built in a later step)
+// ---------- channels and select
+
+// ChanData is the content of a channel object. Unbuffered channels (Cap == 0) hand values over
+// by rendezvous between a parked operation and the operation that is being performed.
+type ChanData struct {
+	Buf    []Value
+	Cap    int
+	Closed bool
+	Elem   types.Type
+}
+
+type chanCase struct {
+	send bool
+	ch   *Object // nil: nil channel (never ready)
+	val  Value
+}
+
+type pendingChanOp struct {
+	cases    []chanCase
+	blocking bool
+	done     int // index of the case a partner completed, -1 none
+	recv     Value
+	ok       bool
+}
+
+func (ex *Exec) chanData(o *Object) *ChanData {
+	v, _ := ex.memGet(o)
+	cd, _ := v.(*ChanData)
+	if cd == nil {
+		ex.unsupported("channel object without data")
+	}
+	return cd
+}
 
 func (ex *Exec) makeChan(fr *Frame, x *ssa.MakeChan) Value {
-	ex.unsupported("make(chan) (channel model not built)")
+	size := ex.get(fr, x.Size)
+	st, ok := size.(*Term)
+	if !ok || !st.Const {
+		ex.unsupported("make(chan) with a symbolic capacity")
+	}
+	n := int(st.BigS().Int64())
+	if n < 0 {
+		ex.goPanicRuntime("makechan: size out of range", ex.posOf(x))
+	}
+	elem := x.Type().Underlying().(*types.Chan).Elem()
+	o := ex.newObjectWith(x.Type(), ex.posOf(x), &ChanData{Cap: n, Elem: elem})
+	return ChanV{Obj: o}
+}
+
+func (ex *Exec) otherPending(me int, f func(t *vthread, op *pendingChanOp) bool) {
+	if ex.threads == nil {
+		return
+	}
+	for _, t := range ex.threads.threads {
+		if t.id == me || t.done || t.pend == nil || t.pend.done >= 0 {
+			continue
+		}
+		if f(t, t.pend) {
+			return
+		}
+	}
+}
+
+// partner: a parked, unmatched operation of another thread with a case of the opposite direction on ch
+func (ex *Exec) chanPartners(me int, ch *Object, wantSend bool) (ts []*vthread, idx []int) {
+	ex.otherPending(me, func(t *vthread, op *pendingChanOp) bool {
+		for i, c := range op.cases {
+			if c.ch == ch && c.send == wantSend {
+				ts = append(ts, t)
+				idx = append(idx, i)
+				break
+			}
+		}
+		return false
+	})
+	return
+}
+
+func (ex *Exec) caseReady(me int, c chanCase) bool {
+	if c.ch == nil {
+		return false
+	}
+	cd := ex.chanData(c.ch)
+	if c.send {
+		if cd.Closed {
+			return true // panics
+		}
+		if cd.Cap > 0 {
+			return len(cd.Buf) < cd.Cap
+		}
+		ts, _ := ex.chanPartners(me, c.ch, false)
+		return len(ts) > 0
+	}
+	if len(cd.Buf) > 0 || cd.Closed {
+		return true
+	}
+	if cd.Cap == 0 {
+		ts, _ := ex.chanPartners(me, c.ch, true)
+		return len(ts) > 0
+	}
+	return false
+}
+
+// chanOp performs a (possibly multi-case) channel operation; returns the chosen case (-1: default),
+// and for a receive the value and ok flag.
+func (ex *Exec) chanOp(cases []chanCase, blocking bool, site ssa.Instruction, what string) (int, Value, bool) {
+	op := &pendingChanOp{cases: cases, blocking: blocking, done: -1}
+	me := ex.curThread()
+	enabled := func() bool {
+		if op.done >= 0 || !blocking {
+			return true
+		}
+		for _, c := range cases {
+			if ex.caseReady(me, c) {
+				return true
+			}
+		}
+		return false
+	}
+	if ex.threads != nil {
+		ex.threads.threads[me].pend = op
+	}
+	ex.visibleOp(what+" at "+ex.posOf(site), enabled)
+	if ex.threads != nil {
+		ex.threads.threads[me].pend = nil
+	}
+	if op.done >= 0 {
+		return op.done, op.recv, op.ok
+	}
+	var ready []int
+	for i, c := range cases {
+		if ex.caseReady(me, c) {
+			ready = append(ready, i)
+		}
+	}
+	if len(ready) == 0 {
+		return -1, nil, false
+	}
+	k := ready[0]
+	if len(ready) > 1 {
+		k = ready[ex.decideFree(len(ready), "select among ready cases")]
+	}
+	c := cases[k]
+	cd := ex.chanData(c.ch)
+	if c.send {
+		if cd.Closed {
+			panic(&GoPanic{Val: ex.runtimeErrorValue("send on closed channel"), Msg: "send on closed channel", Runtime: true, Site: ex.posOf(site), Stack: ex.stackStrings()})
+		}
+		if cd.Cap > 0 {
+			nb := append(append([]Value(nil), cd.Buf...), c.val)
+			ex.memSet(c.ch, &ChanData{Buf: nb, Cap: cd.Cap, Closed: cd.Closed, Elem: cd.Elem})
+			return k, nil, false
+		}
+		ts, idx := ex.chanPartners(me, c.ch, false)
+		p := 0
+		if len(ts) > 1 {
+			p = ex.decideFree(len(ts), "receiver of an unbuffered send")
+		}
+		ts[p].pend.done, ts[p].pend.recv, ts[p].pend.ok = idx[p], c.val, true
+		return k, nil, false
+	}
+	if len(cd.Buf) > 0 {
+		v := cd.Buf[0]
+		ex.memSet(c.ch, &ChanData{Buf: append([]Value(nil), cd.Buf[1:]...), Cap: cd.Cap, Closed: cd.Closed, Elem: cd.Elem})
+		return k, v, true
+	}
+	if cd.Closed {
+		return k, ex.zero(cd.Elem), false
+	}
+	ts, idx := ex.chanPartners(me, c.ch, true)
+	p := 0
+	if len(ts) > 1 {
+		p = ex.decideFree(len(ts), "sender of an unbuffered receive")
+	}
+	v := ts[p].pend.cases[idx[p]].val
+	ts[p].pend.done = idx[p]
+	return k, v, true
+}
+
+func chanObj(ex *Exec, v Value) *Object {
+	switch c := v.(type) {
+	case ChanV:
+		return c.Obj
+	case nil:
+		return nil
+	}
+	ex.unsupported("channel operand %T", v)
 	return nil
 }
+
 func (ex *Exec) chanSend(fr *Frame, ch, v Value, site ssa.Instruction) {
-	ex.unsupported("channel send (channel model not built)")
+	ex.chanOp([]chanCase{{send: true, ch: chanObj(ex, ch), val: v}}, true, site, "send")
 }
+
 func (ex *Exec) chanRecv(fr *Frame, ch Value, commaOk bool, site ssa.Instruction) Value {
-	ex.unsupported("channel receive (channel model not built)")
-	return nil
+	o := chanObj(ex, ch)
+	_, v, ok := ex.chanOp([]chanCase{{ch: o}}, true, site, "receive")
+	if commaOk {
+		return TupleV{v, ex.ts.Bool(ok)}
+	}
+	return v
 }
+
 func (ex *Exec) chanClose(fr *Frame, ch Value, site ssa.Instruction) {
-	ex.unsupported("channel close (channel model not built)")
+	o := chanObj(ex, ch)
+	ex.visibleOp("close at "+ex.posOf(site), nil)
+	if o == nil {
+		ex.goPanicRuntime("close of nil channel", ex.posOf(site))
+	}
+	cd := ex.chanData(o)
+	if cd.Closed {
+		panic(&GoPanic{Val: ex.runtimeErrorValue("close of closed channel"), Msg: "close of closed channel", Runtime: true, Site: ex.posOf(site), Stack: ex.stackStrings()})
+	}
+	ex.memSet(o, &ChanData{Buf: cd.Buf, Cap: cd.Cap, Closed: true, Elem: cd.Elem})
 }
+
 func (ex *Exec) selectStmt(fr *Frame, x *ssa.Select) Value {
-	ex.unsupported("select (channel model not built)")
-	return nil
+	cases := make([]chanCase, len(x.States))
+	for i, st := range x.States {
+		cases[i] = chanCase{send: st.Dir == types.SendOnly, ch: chanObj(ex, ex.get(fr, st.Chan))}
+		if st.Send != nil {
+			cases[i].val = ex.get(fr, st.Send)
+		}
+	}
+	k, v, ok := ex.chanOp(cases, x.Blocking, x, "select")
+	res := TupleV{ex.goInt(int64(k)), ex.ts.Bool(ok)}
+	for i, st := range x.States {
+		if st.Dir != types.RecvOnly {
+			continue
+		}
+		et := st.Chan.Type().Underlying().(*types.Chan).Elem()
+		if i == k && v != nil {
+			res = append(res, v)
+		} else {
+			res = append(res, ex.zero(et))
+		}
+	}
+	return res
 }
-func (ex *Exec) chanLen(c ChanV) *Term { ex.unsupported("len(chan)"); return nil }
-func (ex *Exec) chanCap(c ChanV) *Term { ex.unsupported("cap(chan)"); return nil }
+
+func (ex *Exec) chanLen(c ChanV) *Term {
+	if c.Obj == nil {
+		return ex.goInt(0)
+	}
+	return ex.goInt(int64(len(ex.chanData(c.Obj).Buf)))
+}
+
+func (ex *Exec) chanCap(c ChanV) *Term {
+	if c.Obj == nil {
+		return ex.goInt(0)
+	}
+	return ex.goInt(int64(ex.chanData(c.Obj).Cap))
+}
 
 var _ = types.Typ
